@@ -30,6 +30,12 @@ Inductive derror :=
 | BadIndex.               (* IndexError (numpy) *)
 
 Definition IDLE : Z := 0.   (* hash of the idle segment; any fixed value *)
+(* The idle segment is an ordinary segment (192 zero samples on both channels).  A program that contains a waveform
+   which is bit-identical to it produces a segment with the SAME hash: `find_positions` maps it to slot 0, the upload
+   re-uses slot 0 and must count that re-use (`waveform_to_segment >= 0`, not `> 0`), because free_program decrements
+   slot 0 like any other slot.  `idle_seg` is that segment as it appears in an `OUpload`. *)
+Definition IDLE_LEN : Z := 192.
+Definition idle_seg : Z * Z := (IDLE, IDLE_LEN).
 
 (* clear(): one slot holding the idle segment, reference count 1, no programs *)
 Definition clear (total : Z) : driver :=
@@ -135,8 +141,10 @@ Fixpoint assign_mask (w : list Z) (m : list bool) (v : list Z) : list Z :=
 Definition place_fun := memory -> list Z -> list Z -> result decision.
 
 (* upload(name, program, ..., force) after the program has been sampled into segments (hash, length) *)
-Definition upload_with (place : place_fun) (d : driver) (name : nat) (segs : list (Z * Z)) (force : bool)
-  : driver * option derror :=
+(* `counted` = the mask applied to waveform_to_segment before `_segment_references[...] += 1`; the code has `>= 0`
+   (upload_with below).  The parameter only exists to state what goes wrong with `> 0` (Props.C19_slot0_reuse_must_be_counted). *)
+Definition upload_gen (counted : Z -> bool) (place : place_fun) (d : driver) (name : nat) (segs : list (Z * Z))
+  (force : bool) : driver * option derror :=
   let pre := if existsb (fun p => Nat.eqb (pg_name p) name) (dv_known d)
              then (if force then free_program d name else (d, Some AlreadyKnown))
              else (d, None) in
@@ -148,7 +156,7 @@ Definition upload_with (place : place_fun) (d : driver) (name : nat) (segs : lis
       | Err e => (d1, Some (Refused e))
       | Ok dec =>
           (* self._segment_references[waveform_to_segment[waveform_to_segment >= 0]] += 1 *)
-          let d2 := with_refs d1 (incr_at (map Z.to_nat (filter (fun p => 0 <=? p) (d_w2s dec))) (dv_refs d1)) in
+          let d2 := with_refs d1 (incr_at (map Z.to_nat (filter counted (d_w2s dec))) (dv_refs d1)) in
           match do_writes d2 (writes_of (d_insert dec) segs) with
           | (d3, Some e) => (d3, Some e)
           | (d3, None) =>
@@ -164,6 +172,8 @@ Definition upload_with (place : place_fun) (d : driver) (name : nat) (segs : lis
           end
       end
   end.
+Definition upload_with : place_fun -> driver -> nat -> list (Z * Z) -> bool -> driver * option derror :=
+  upload_gen (fun p => 0 <=? p).
 Definition upload := upload_with find_place.
 
 Inductive op :=
@@ -192,6 +202,19 @@ Fixpoint run_with (place : place_fun) (d : driver) (ops : list op) : driver :=
   | o :: r => run_with place (fst (step_with place d o)) r
   end.
 Definition run := run_with find_place.
+
+(* the same histories with another `counted` mask in upload() (only used for the negative statement
+   Props.C19_slot0_reuse_must_be_counted; `run_counted (fun p => 0 <=? p)` is `run`) *)
+Definition step_counted (counted : Z -> bool) (d : driver) (o : op) : driver * option derror :=
+  match o with
+  | OUpload name segs force => upload_gen counted find_place d name segs force
+  | _ => step_with find_place d o
+  end.
+Fixpoint run_counted (counted : Z -> bool) (d : driver) (ops : list op) : driver :=
+  match ops with
+  | [] => d
+  | o :: r => run_counted counted (fst (step_counted counted d o)) r
+  end.
 
 (* ------------------------------------------------------------------------------------------------------------- *)
 (* input well-formedness for the capacity theorem: segment lengths are numbers of points (unsigned in the driver) *)
